@@ -190,6 +190,7 @@ fn main() {
     println!("cargo::rerun-if-changed=build.rs");
     println!("cargo::rerun-if-changed=flows_table.rs");
     println!("cargo::rerun-if-changed=net_flows_table.rs");
+    println!("cargo::rerun-if-changed=generated_table.rs");
     let out_dir = std::env::var("OUT_DIR").unwrap();
     std::panic::set_hook(Box::new(|_| {}));
     let mut dumps: Vec<(String, String)> = Vec::new();
@@ -235,6 +236,7 @@ fn main() {
         };
     }
     include!("flows_table.rs");
+    include!("generated_table.rs");
 
     // two-process flows (network): dumped and code-generated (compiled by rustc), not driven
     macro_rules! net_flows {
